@@ -145,6 +145,7 @@ pub fn c11_case(fam: &str, idx: usize, seed: u64) -> Option<Case> {
         seq_start: None,
         preset_ids: vec![],
         forget_puts: vec![],
+        stall_after: vec![],
             };
             if burst {
                 sc.paced = false;
